@@ -3,7 +3,7 @@
 //! These types are used to persist rule definitions to disk.
 
 use crate::ast::{
-    AggregateFunc, ArithExpr, ArithOp, Atom, BodyPredicate, ComparisonOp, Rule, Term,
+    AggregateFunc, ArithExpr, ArithOp, Atom, BodyPredicate, BuiltinFunc, ComparisonOp, Rule, Term,
 };
 use serde::{Deserialize, Serialize};
 
@@ -36,6 +36,10 @@ pub enum SerializableTerm {
     Aggregate(AggregateFunc, String),
     /// Arithmetic expression (e.g., D+1, X*Y)
     Arithmetic(SerializableArithExpr),
+    /// Boolean constant (`true` / `false`)
+    BoolConstant(bool),
+    /// Built-in function call (e.g., `abs(X)`, `euclidean(V1, V2)`)
+    FunctionCall(BuiltinFunc, Vec<SerializableTerm>),
 }
 
 /// Serializable arithmetic expression for JSON storage
@@ -140,8 +144,13 @@ impl SerializableTerm {
             Term::Arithmetic(expr) => {
                 SerializableTerm::Arithmetic(SerializableArithExpr::from_arith_expr(expr))
             }
-            // For other complex terms (FunctionCall, VectorLiteral),
-            // we simplify to placeholder as they're not typically used in view definitions
+            Term::BoolConstant(b) => SerializableTerm::BoolConstant(*b),
+            Term::FunctionCall(func, args) => SerializableTerm::FunctionCall(
+                func.clone(),
+                args.iter().map(SerializableTerm::from_term).collect(),
+            ),
+            // Remaining complex terms (VectorLiteral, FieldAccess, RecordPattern) are
+            // simplified to placeholder
             _ => SerializableTerm::Placeholder,
         }
     }
@@ -155,6 +164,11 @@ impl SerializableTerm {
             SerializableTerm::Placeholder => Term::Placeholder,
             SerializableTerm::Aggregate(func, var) => Term::Aggregate(func.clone(), var.clone()),
             SerializableTerm::Arithmetic(expr) => Term::Arithmetic(expr.to_arith_expr()),
+            SerializableTerm::BoolConstant(b) => Term::BoolConstant(*b),
+            SerializableTerm::FunctionCall(func, args) => Term::FunctionCall(
+                func.clone(),
+                args.iter().map(SerializableTerm::to_term).collect(),
+            ),
         }
     }
 }
